@@ -855,9 +855,17 @@ def run_retention(shard, ctx, rng):
     for name, f in D.FORMATS.items():
         cls = f.lib_cls()
         decoders.append((name, f, cls))
-    for name, f, cls, hostile in [d + (False,) for d in decoders + [("sense", None, None)]] + [d + (True,) for d in decoders + [("sense", None, None)]]:
+    rcd = D.FORMATS["readcd"]
+    streams = [d + (False,) for d in decoders + [("sense", None, None)]] + [d + (True,) for d in decoders + [("sense", None, None)]]
+    # a disc read for its sub-channel only (16 bytes of formatted Q per sector, every frame with a good CRC and another content)
+    streams.append(("readcd.q_subchannel_only", rcd, rcd.lib_cls(), "q"))
+    for name, f, cls, hostile in streams:
         bufs = []
         for i in range(N + 60):
+            if hostile == "q":
+                v = f.gen(rng, ("layout", (1, 0, 0, 2), 40))
+                bufs.append((f.encode(v), f.decode_kwargs(v)))
+                continue
             if f is None:
                 descs = [SR.descriptor(k, rng) for k in rng.sample(SR.DESCRIPTOR_KINDS, 3)]
                 b, kw, sites = SR.build_with_descriptors(0x72, rng.randrange(16), rng.getrandbits(8), rng.getrandbits(8), descs), {}, [(7, 1)]
@@ -876,7 +884,7 @@ def run_retention(shard, ctx, rng):
                     b[rng.randrange(len(b))] = rng.getrandbits(8)
                 b = bytes(b)
             bufs.append((b, kw))
-        if hostile:
+        if hostile is True:
             name = name + ".hostile"
 
         def decode(b, kw):
